@@ -304,7 +304,7 @@ def run_case(case):
         # or saturation is accepted for a compartment whose centre lies at or below the table
         zg = float(spec["gw"]["values"][0])
         mids_ = refdz - dz / 2
-        below = mids_ >= zg
+        below = mids_ >= zg - 1e-9      # a centre at the table depth (a tie decided by rounding) may go either way
         sat = np.array([lay[ref_layer[i] - 1][2] if 0 <= ref_layer[i] - 1 < len(lay) else want[i] for i in range(n)])
         want = np.where(below & (np.abs(th - sat) <= 1e-12), sat, want)
         cov["iwc_with_water_table"] += 1
